@@ -11,7 +11,7 @@
 (* turns the graph into; a deviation is charged only when it changes the exported records.    *)
 EXTENDS SnapshotRT, TraceBase
 
-tvars == <<G, l, sid, used>>
+tvars == <<G, l, sid, used, failed>>
 
 KFName(d) == CASE d = "trim" -> "KF_C12_StringsTrimmed"
                [] d = "nolabel" -> "KF_C12_UnlabelledGetsEmptyLabel"
@@ -19,10 +19,13 @@ KFName(d) == CASE d = "trim" -> "KF_C12_StringsTrimmed"
                [] d = "nonfinite" -> "KF_C12_NonFiniteFloatsDropped"
                [] d = "ghost" -> "KF_C12_GhostStubEdges"
                [] d = "tagged" -> "KF_C12_TaggedMapReadAsScalar"
+               [] d = "hiercycle" -> "KF_C12_HierarchyOverCycleDropped"
 OpenDevs == {d \in DevNames : KFName(d) \in OpenKF}
 
 TInit == GInit /\ TBInit
-T_Reset == ResetBook /\ G' = [nodes |-> <<>>, rels |-> <<>>, ghosts |-> <<>>, hier |-> {}, ver |-> 1]
+EmptyG == [nodes |-> <<>>, rels |-> <<>>, ghosts |-> <<>>, hier |-> {}, ver |-> 1]
+T_Reset == ResetBook /\ G' = EmptyG
+T_Fail == FailBook /\ G' = EmptyG
 
 OK == Ev.res = "ok"
 T_Node == IsEv("Node") /\ OK /\ AddNode(Ev.h, Ev.labels, Ev.props, Ev.via = "stub") /\ Same
@@ -32,16 +35,27 @@ T_SetProp == IsEv("SetProp") /\ OK /\ SetProp(Ev.h, Ev.key, Ev.tok) /\ Same
 T_DelRel == IsEv("DelRel") /\ OK /\ DelRel(Ev.h) /\ Same
 T_Compact == IsEv("Compact") /\ OK /\ Compact /\ Same
 T_Hier == IsEv("Hier") /\ OK /\ DeclareHier(Ev.name, SeqSet(Ev.types), Ev.measure, SeqSet(Ev.ops)) /\ Same
+\* the store may refuse a declaration (e.g. the covering relation has a cycle right now): nothing is declared
+T_HierRefused == IsEv("Hier") /\ Ev.res = "err" /\ UNCHANGED G /\ Same
 
-HierOK == HierSeqToSet(Ev.obs.hier) = G.hier
+\* the source store lists exactly the declarations made (monoids as the store reports them, defaults included) ...
+SrcHier == HierSeqToSet(Ev.obs.src_hier)
+SrcHierOK == /\ {[name |-> x.name, types |-> x.types, measure |-> x.measure] : x \in SrcHier}
+                  = {[name |-> x.name, types |-> x.types, measure |-> x.measure] : x \in G.hier}
+             /\ \A x \in SrcHier : \A y \in G.hier : x.name = y.name => y.ops \subseteq x.ops
+\* ... and the imported store must list the same ones
+ExpectedHier(D) == IF "hiercycle" \in D THEN {x \in SrcHier : ~HasCycle(G, x.types)} ELSE SrcHier
+EffectiveD(D) == /\ Effective(G, D \ {"hiercycle"})
+                 /\ "hiercycle" \in D => ExpectedHier(D) # SrcHier
 T_RoundTrip ==
-    /\ IsEv("RoundTrip") /\ OK /\ HierOK /\ UNCHANGED G
-    /\ \/ RoundTripOK(G, {}, Ev.obs.dump) /\ Same
+    /\ IsEv("RoundTrip") /\ OK /\ SrcHierOK /\ UNCHANGED G
+    /\ \/ RoundTripOK(G, {}, Ev.obs.dump) /\ HierSeqToSet(Ev.obs.hier) = SrcHier /\ Same
        \/ \E D \in (SUBSET OpenDevs) \ {{}} :
-             /\ Effective(G, D)
+             /\ EffectiveD(D)
              /\ RoundTripOK(G, D, Ev.obs.dump)
-             /\ sid' = sid /\ used' = used \cup {KFName(d) : d \in D}
+             /\ HierSeqToSet(Ev.obs.hier) = ExpectedHier(D)
+             /\ KFs({KFName(d) : d \in D})
 
-TNext == T_Reset \/ T_Node \/ T_Rel \/ T_Bump \/ T_SetProp \/ T_DelRel \/ T_Compact \/ T_Hier \/ T_RoundTrip
+TNext == T_Fail \/ T_Reset \/ T_Node \/ T_Rel \/ T_Bump \/ T_SetProp \/ T_DelRel \/ T_Compact \/ T_Hier \/ T_HierRefused \/ T_RoundTrip
 TSpec == TInit /\ [][TNext]_tvars
 =============================================================================
